@@ -209,4 +209,71 @@ theorem wrap_line_width (cw : Char → Nat) (hard : Nat) (line : Str) (hp : Plai
 /-- non-vacuity: "aaa bbb ccc" at width 7 -/
 example : (linesOf ((LW.new 7).wrap (fun _ => 1) (findWords "aaa bbb ccc".toList)).2.reverse).map lineTrimLen = [3, 7] := by decide
 
+/-! #### 5. text that fits is left alone -/
+
+/-- on a plain word the wrapper's bookkeeping (display width of the trimmed word plus the trailing bytes) is the word's length -/
+theorem plain_word_cost (cw : Char → Nat) (w : Str) (h : Plain cw w) :
+    displayWidth cw (trimEnd w) + (byteLen w - byteLen (trimEnd w)) = w.length := by
+  have ht := trimEnd_plain cw w h
+  have hp : Plain cw (trimSp w) := plain_trimSp cw w h
+  have hle := dropWhileEnd_length_le (· == ' ') w
+  rw [ht]
+  have h1 : displayWidth cw (dropWhileEnd (· == ' ') w) = (dropWhileEnd (· == ' ') w).length :=
+    displayWidthAux_plain cw _ hp
+  have h2 : byteLen (dropWhileEnd (· == ' ') w) = (dropWhileEnd (· == ' ') w).length := byteLen_plain cw _ hp
+  have h3 := byteLen_plain cw w h
+  omega
+
+theorem plain_word_width_le (cw : Char → Nat) (w : Str) (h : Plain cw w) : displayWidth cw (trimEnd w) ≤ w.length := by
+  have := plain_word_cost cw w h; omega
+
+/-- the loop never breaks a line whose words all fit in what is left of the width -/
+theorem wrapLoop_fits (cw : Char → Nat) : ∀ (ws : List Str) (st : LW) (first : Bool) (acc : List Str),
+    (∀ w ∈ ws, Plain cw w) → st.lineWidth + (ws.map List.length).sum ≤ st.hard →
+    wrapLoop cw st first acc ws =
+      ({ st with lineWidth := st.lineWidth + (ws.map List.length).sum }, ws.reverse ++ acc) := by
+  intro ws
+  induction ws with
+  | nil => intro st first acc _ _; simp [wrapLoop]
+  | cons w ws ih =>
+    intro st first acc hp hfit
+    have hw := hp w List.mem_cons_self
+    have hcost := plain_word_cost cw w hw
+    have hle := plain_word_width_le cw w hw
+    simp only [List.map_cons, List.sum_cons] at hfit
+    have hno : ¬ (st.hard < st.lineWidth + displayWidth cw (trimEnd w)) := by omega
+    unfold wrapLoop
+    simp only [hno, decide_false, Bool.and_false, Bool.false_eq_true, ↓reduceIte]
+    rw [ih _ false (w :: acc) (fun x hx => hp x (List.mem_cons_of_mem _ hx)) (by simp only; omega)]
+    simp only [List.map_cons, List.sum_cons, List.reverse_cons, List.append_assoc, List.singleton_append]
+    congr 2
+    omega
+
+/-- **text that fits is never broken**: a line of plain text no longer than the width comes out of the wrapper as the
+very same words, with no line break inserted and nothing trimmed - so the width bound above is not met by breaking more
+often than needed on such lines. -/
+theorem wrap_fits_unchanged (cw : Char → Nat) (hard : Nat) (line : Str) (hp : Plain cw line) (hfit : line.length ≤ hard) :
+    ((LW.new hard).wrap cw (findWords line)).2 = findWords line := by
+  have hwords := findWords_plain cw line hp
+  have hsum : ((findWords line).map List.length).sum = line.length := by
+    have := congrArg List.length (findWords_flatten line)
+    simpa [List.length_flatten] using this
+  unfold LW.wrap
+  cases hws : findWords line with
+  | nil => simp [LW.new, wrapLoop]
+  | cons w0 rest =>
+    rw [hws] at hwords hsum
+    simp only [LW.new]
+    rw [wrapLoop_fits cw (w0 :: rest) _ true [] hwords (by simp only; omega)]
+    simp
+
+/-- a whole plain line that fits is returned byte for byte -/
+theorem wrap_fits_flatten (cw : Char → Nat) (hard : Nat) (line : Str) (hp : Plain cw line) (hfit : line.length ≤ hard) :
+    ((LW.new hard).wrap cw (findWords line)).2.flatten = line := by
+  rw [wrap_fits_unchanged cw hard line hp hfit, findWords_flatten]
+
+/-- non-vacuity: "aaa  bbb ccc " fits width 13 and is returned as it is; at width 11 it is not -/
+example : ((LW.new 13).wrap (fun _ => 1) (findWords "aaa  bbb ccc ".toList)).2.flatten = "aaa  bbb ccc ".toList := by decide
+example : ((LW.new 11).wrap (fun _ => 1) (findWords "aaa  bbb ccc ".toList)).2.flatten ≠ "aaa  bbb ccc ".toList := by decide
+
 end Clap.C20
